@@ -238,6 +238,10 @@ struct CountingIter {
     pulled: Rc<Cell<usize>>,
 }
 
+/// When set, the counting source also reports an exact `size_hint` (like `slice.iter().copied()`
+/// or `str::bytes()`); otherwise it keeps the default `(0, None)` (like a stream).
+static EXACT_HINT: std::sync::atomic::AtomicBool = std::sync::atomic::AtomicBool::new(false);
+
 impl Iterator for CountingIter {
     type Item = u8;
     fn next(&mut self) -> Option<u8> {
@@ -245,6 +249,14 @@ impl Iterator for CountingIter {
         self.pos += 1;
         self.pulled.set(self.pulled.get() + 1);
         Some(b)
+    }
+    fn size_hint(&self) -> (usize, Option<usize>) {
+        if EXACT_HINT.load(Relaxed) {
+            let rem = self.bytes.len() - self.pos;
+            (rem, Some(rem))
+        } else {
+            (0, None)
+        }
     }
 }
 
@@ -690,18 +702,23 @@ fn exec<V: Val, A: Auto<V>>(c: &Case, vals: &[V], rng: &mut Rng, out: &mut Out) 
             }
             let mut ri = None;
             if m < 3 {
-                ri = guard(|| pma.search_it(m, h));
-                let mut s = format!("RI {}", METHODS[m]);
-                match &ri {
-                    None => s.push_str(" PANIC"),
-                    Some((v, e)) => {
-                        for x in v {
-                            s.push_str(&format!(" {},{},{},{}", x.0, x.1, x.2.to_dec(), x.3));
+                // twice: a source with the default size_hint, then one with an exact size_hint
+                for exact in [false, true] {
+                    EXACT_HINT.store(exact, Relaxed);
+                    ri = guard(|| pma.search_it(m, h));
+                    EXACT_HINT.store(false, Relaxed);
+                    let mut s = format!("RI {}", METHODS[m]);
+                    match &ri {
+                        None => s.push_str(" PANIC"),
+                        Some((v, e)) => {
+                            for x in v {
+                                s.push_str(&format!(" {},{},{},{}", x.0, x.1, x.2.to_dec(), x.3));
+                            }
+                            s.push_str(&format!(" E {}", e));
                         }
-                        s.push_str(&format!(" E {}", e));
                     }
+                    out.line(&s);
                 }
-                out.line(&s);
             }
             rs.push((r, ri));
         }
